@@ -334,6 +334,9 @@ class B:
     def __repr__(s):
         return "B(%s)" % (s.t,)
 
+    def __format__(s, spec):
+        return "<symbool>"
+
 
 _BR_RNG = __import__("random").Random(777)
 
@@ -557,6 +560,11 @@ class S:
 
     def __repr__(s):
         return "S(%s|%s)" % (str(s.v.n)[:60], s.v.e)
+
+    def __format__(s, spec):
+        if q_is_const(s.v):
+            return format(float(s.v.n), spec)
+        return "<sym>"
 
     def __float__(s):
         if q_is_const(s.v):
